@@ -325,7 +325,11 @@ class HierDictDocument(DictDocument):
             subclasses = cls.get_subclasses()
             (class_name, doc), = doc.items()
             if not six.PY2 and isinstance(class_name, bytes):
-                class_name = class_name.decode('utf8')
+                try:
+                    class_name = class_name.decode('utf8')
+                except UnicodeDecodeError:
+                    raise ValidationError(class_name,
+                                        "Class name %r is not valid utf-8")
 
             if cls.get_type_name() != class_name and subclasses is not None \
                                                         and len(subclasses) > 0:
